@@ -100,7 +100,12 @@ func (c *RawEVMConfig) Validate() error {
 // raw chain config
 func NewEVMConfig(chainConfig map[string]interface{}) (*EVMConfig, error) {
 	var c RawEVMConfig
-	err := mapstructure.Decode(chainConfig, &c)
+	err := chain.ValidateDomainID(chainConfig)
+	if err != nil {
+		return nil, err
+	}
+
+	err = mapstructure.Decode(chainConfig, &c)
 	if err != nil {
 		return nil, err
 	}
